@@ -91,18 +91,32 @@ def replay_reinforce(tuples, C, viol, samples):
             mods[kind] = m
         return mods[kind]
 
-    gen_batch = env.generator(B)
-    for (kind, hist) in [k for k in table if len(k[1]) == maxlen]:
-        mod = module(kind)
+    from rl4co.models.rl.reinforce.baselines import get_reinforce_baseline
+
+    def baselines_for(kind):
+        """the baseline objects of a history, built through the PUBLIC factory with non-default keyword arguments
+        (label, constructor); None = keep the module's own"""
         if kind == "exp":
-            mod.baseline = ExponentialBaseline(beta=beta)   # fresh state for every history
+            # (b) the default "rollout" baseline during its warm-up (alpha = 0) IS the exponential baseline with exp_beta
+            return [("exponential", lambda: get_reinforce_baseline("exponential", beta=beta)),
+                    ("rollout(warm-up, alpha=0)", lambda: get_reinforce_baseline("rollout", n_epochs=3, exp_beta=beta, bl_alpha=0.1))]
         if kind == "warmup":
-            from rl4co.models.rl.reinforce.baselines import WarmupBaseline
-            wb = WarmupBaseline(ExponentialBaseline(beta=int(C["Beta2N"]) / int(C["Beta2D"])), n_epochs=int(C["AlphaD"]),
-                                warmup_exp_beta=beta)
-            for e in range(int(C["AlphaN"])):        # alpha = AlphaN / AlphaD after AlphaN epoch callbacks
-                wb.epoch_callback(None, env=None, batch_size=1, device="cpu", epoch=e, dataset_size=None)
-            mod.baseline = wb
+            def mk():
+                wb = get_reinforce_baseline("warmup", baseline="exponential", beta=int(C["Beta2N"]) / int(C["Beta2D"]),
+                                            n_epochs=int(C["AlphaD"]), warmup_exp_beta=beta)
+                for e in range(int(C["AlphaN"])):        # alpha = AlphaN / AlphaD after AlphaN epoch callbacks
+                    wb.epoch_callback(None, env=None, batch_size=1, device="cpu", epoch=e, dataset_size=None)
+                return wb
+            return [("warmup(exponential)", mk)]
+        return [(None, None)]
+
+    gen_batch = None
+    for (kind, hist, bl_label, bl_mk) in [(k[0], k[1], lab, mk) for k in table if len(k[1]) == maxlen for (lab, mk) in baselines_for(k[0])]:
+        mod = module(kind)
+        if gen_batch is None:
+            gen_batch = env.generator(B)
+        if bl_mk is not None:
+            mod.baseline = bl_mk()                   # fresh state for every history
         for j in range(len(hist)):
             R, Lneg, X = hist[j]
             adv, loss, gL, gX = table[(kind, hist[: j + 1])]
@@ -171,11 +185,58 @@ def replay_reinforce(tuples, C, viol, samples):
             if bad:
                 viol.append({"property": "C16", "env": {"no": "REINFORCE", "exp": "REINFORCE+exponential", "extra": "REINFORCE+rollout-extra",
                                                         "critic": "A2C", "shared": "POMO", "warmup": "REINFORCE+warmup"}[kind], "monitor": "replay-surrogate",
-                             "inst": {"kind": kind, "steps": [list(map(list, st)) for st in hist[: j + 1]]}, "actions": [],
+                             "inst": {"kind": kind, "baseline_built_as": bl_label, "steps": [list(map(list, st)) for st in hist[: j + 1]]}, "actions": [],
                              "detail": "; ".join(bad)[:600]})
                 break
     samples.append({"kind": kind, "steps": [list(map(list, st)) for st in hist], "spec_loss": str(loss),
                     "spec_grad_loglik": [str(g) for g in gL]})
+    # ---- running advantage scaling (reward_scale = "scale" / "norm"): the advantages are the specification's (exact), the
+    # statistics are "mean and sample standard deviation of ALL advantage values seen so far" (C20's definition), whatever the
+    # shape of the advantage tensor ([n] for REINFORCE, [B, K] for the shared-baseline multi-start module)
+    import statistics
+
+    eps = float(torch.finfo(torch.float32).eps)
+    for mode in ("scale", "norm"):
+        for kind in ("no", "shared"):
+            hists = sorted(k[1] for k in table if k[0] == kind and len(k[1]) == maxlen)
+            for hist in hists[:: max(1, len(hists) // 40)]:
+                if kind == "no":
+                    m = REINFORCE(env, pol, baseline=NoBaseline(), reward_scale=mode)
+                else:
+                    m = POMO(env, pol, num_starts=K, num_augment=1, reward_scale=mode)
+                m.log_dict = lambda *a, **k: None
+                seen = []
+                for j in range(len(hist)):
+                    R, Lneg, X = hist[j]
+                    adv = [float(a) for a in table[(kind, hist[: j + 1])][0]]
+                    seen += adv
+                    reward = torch.tensor(R, dtype=torch.float32)
+                    ll = torch.tensor([-float(x) for x in Lneg], requires_grad=True)
+                    if kind == "shared":
+                        pol.out = {"reward": reward, "log_likelihood": ll, "actions": torch.zeros(n, 4, dtype=torch.long)}
+                        lossv = m.shared_step(gen_batch.clone(), 0, "train")["loss"]
+                    else:
+                        lossv = m.calculate_loss(TensorDict({}, batch_size=[n]), TensorDict({}, batch_size=[n]), {}, reward, ll)["loss"]
+                    nrep += 1
+                    if len(seen) < 2 or statistics.stdev(seen) < 1e-9:
+                        continue                      # degenerate statistics: recorded, not judged
+                    lossv.backward()
+                    mu, sd = statistics.fmean(seen), statistics.stdev(seen)
+                    sc = [(a - (mu if mode == "norm" else 0.0)) / (sd + eps) for a in adv]
+                    exp_loss = -sum(a * (-float(x)) for a, x in zip(sc, Lneg)) / n
+                    exp_g = [-a / n for a in sc]
+                    bad = []
+                    if not near(lossv, exp_loss, 2e-4):
+                        bad.append("loss %s, reference %s" % (float(lossv), exp_loss))
+                    if any(not near(g, e, 2e-4) for g, e in zip(ll.grad.tolist(), exp_g)):
+                        bad.append("d loss/d log-likelihood %s, reference %s" % (ll.grad.tolist(), exp_g))
+                    if bad:
+                        viol.append({"property": "C16", "env": ("REINFORCE" if kind == "no" else "POMO") + "+reward_scale=" + mode,
+                                     "monitor": "replay-scaled-surrogate",
+                                     "inst": {"kind": kind, "mode": mode, "steps": [list(map(list, st)) for st in hist[: j + 1]]},
+                                     "actions": [], "detail": ("advantages seen so far %s (mean %.6f, sample std %.6f); " % (seen, mu, sd)
+                                                               + "; ".join(bad))[:700]})
+                        break
     return nrep
 
 
